@@ -1064,7 +1064,9 @@ func (g *Gen) genC10() {
 			}})
 		}
 		// URI port
-		for _, form := range []string{"sip:h:%s", "sip:u@h:%s", "sip:u:p@h:%s;x=y", "sip:h:%s?a=b", "sips:[::1]:%s"} {
+		// (the last four: text first taken as host:port[;params|?headers] that a later '@' turns into the user part)
+		for _, form := range []string{"sip:h:%s", "sip:u@h:%s", "sip:u:p@h:%s;x=y", "sip:h:%s?a=b", "sips:[::1]:%s",
+			"sip:[::1]:5;x@h:%s", "sip:[::2]:77?q@h:%s;y", "sips:[a]:9;x=1;y@[::1]:%s", "sip:[::1]:65535;lr@h:%s?z=1"} {
 			u := fmt.Sprintf(form, d)
 			g.add(Case{Prop: "C10", Desc: "uri-port", Lines: []string{fmt.Sprintf("uri | B %s | P %d 0 0 | O", hx(u), len(u))}, Check: func(out []string) string {
 				return protect(func() string {
